@@ -72,7 +72,10 @@ func (d *defineBuiltinMethod) defineBuiltinInstanceMethod(
 	methodT.DefinedClass = d.targetClass
 	methodT.IsStatic = false
 
-	existingT := base.GetMethodT(frame, d.targetClass, method, false)
+	// an overload extends a method of this very class; a method the class
+	// merely inherits (its declarations may be split over several files) is
+	// overridden, not extended
+	existingT := base.GetOwnMethodT(frame, d.targetClass, method, false)
 
 	if existingT != nil {
 		existingT.Overloads = append(existingT.Overloads, *methodT)
@@ -115,7 +118,7 @@ func (d *defineBuiltinMethod) defineBuiltinStaticMethod(
 		base.CalculateFrame(frame, d.targetClass) + "::" + method,
 	)
 
-	existingT := base.GetClassMethodT(frame, d.targetClass, method, false)
+	existingT := base.GetOwnClassMethodT(frame, d.targetClass, method, false)
 
 	if existingT != nil {
 		existingT.Overloads = append(existingT.Overloads, *methodT)
